@@ -53,6 +53,9 @@ def _compute_centerline_dice_coefficient(
     ndim = reference.ndim
     assert 2 <= ndim <= 3, "clDice only implemented for 2D or 3D"
     if ndim == 2:
+        # the 2D skeletonize only accepts C-contiguous input
+        reference = np.ascontiguousarray(reference)
+        prediction = np.ascontiguousarray(prediction)
         tprec = cl_score(prediction, skeletonize(reference))
         tsens = cl_score(reference, skeletonize(prediction))
     elif ndim == 3:
